@@ -22,6 +22,7 @@ type Source struct {
 	ended     int32
 	inCall    int32
 	reentrant int64
+	probe     func() // called on every source call (used to observe caller-owned data while the library runs)
 }
 
 func (s *Source) next() int {
@@ -31,6 +32,9 @@ func (s *Source) next() int {
 		defer atomic.StoreInt32(&s.inCall, 0)
 	}
 	k := int(atomic.AddInt64(&s.calls, 1)) - 1
+	if s.probe != nil {
+		s.probe()
+	}
 	if atomic.LoadInt32(&s.ended) == 1 {
 		atomic.AddInt64(&s.afterEnd, 1)
 		return 7
